@@ -82,6 +82,8 @@ type PktState struct {
 
 	expect  sendExpect
 	ackSeen []byte
+	// only meaningful in pre-block copies: was the end closed by an ordered timeout before the block
+	closedSrc, closedDst bool
 }
 
 // Tap is one application callback invocation observed by a scripted mock application.
@@ -147,6 +149,8 @@ type CoreOptions struct {
 	Payloads   int // max payloads for v2
 	TightTmo   int // percent of packets with tight timeouts
 	Delay      uint64
+	FrontBias  int // percent: relayer picks the front packet of an ordered channel (0 = default 70)
+	GuardBoundary int // percent of sends with timeouts on a send-guard boundary (0 = default 5)
 }
 
 func DefaultCoreOptions() CoreOptions {
